@@ -126,6 +126,56 @@ let () = each_line (fun line ->
         let vals = List.sort compare (List.concat (List.map (fun t -> match t with C j -> List.map int_of_nat (returned_by j !s) | _ -> []) !started)) in
         Buffer.add_string out (Printf.sprintf "%sP%dC%d:%s" (if a = 0 then "" else "|") fp fc (String.concat "," (List.map string_of_int vals)))) acts;
     "ok " ^ Buffer.contents out
+  | "LIFE" :: es :: bc :: total :: seed :: ops ->
+    (* configuration (chain_block_size) and life cycle (life_step) of a Chain; every round with a sink is one run of the chain
+       model from chain_init to MDone under a seed-driven schedule *)
+    let es = int_of_string es and bc = int_of_string bc and total = int_of_string total in
+    (match chain_block_size (nat_of_int es) (nat_of_int bc) (nat_of_int total) with
+     | None -> "config-exception"
+     | Some bsn ->
+       let bs = int_of_nat bsn in
+       if bs = 0 then "bs=0" else begin
+         let per = bs / es in
+         let st = ref (int_of_string seed land 0x3fffffff) in
+         let rnd k = st := (!st * 1103515245 + 12345) land 0x3fffffff; (!st lsr 8) mod k in
+         let l = ref life_init and reported = ref 0 and round = ref 0 in
+         let rounds = ref [] in          (* (round number, entries, hash) of the rounds that have a sink *)
+         let out = Buffer.create 128 in
+         Buffer.add_string out (Printf.sprintf "bs=%d" bs);
+         let step o = l := life_step (nat_of_int bc) !l o in
+         let run_round n r =
+           let rec blocks_of i acc cur k = if i >= n then List.rev (if cur = [] then acc else List.rev cur :: acc)
+             else if k = per then blocks_of i (List.rev cur :: acc) [] 0 else blocks_of (i + 1) acc (nat_of_int i :: cur) (k + 1) in
+           let c = ref (chain_init (nat_of_int bc) (blocks_of 0 [] [] 0) [(fun p -> p); (fun p -> p)]) in
+           let fuel = ref (100000 + 200 * (n + 2)) in
+           while !c.mainp <> MDone && !fuel > 0 do
+             decr fuel;
+             let en = List.filter_map (fun t -> chain_step (nat_of_int bc) !c t) [TSrc; TMain; TW O; TW (S O)] in
+             if en = [] then fuel := 0 else c := List.nth en (rnd (List.length en))
+           done;
+           let idx = List.map int_of_nat (List.concat (sink_seen !c)) in
+           let h = ref 0x14650FB0739D0383L in
+           List.iter (fun i -> for j = 0 to es - 1 do
+                         h := Int64.mul (Int64.logxor !h (Int64.of_int ((i * 31 + j * 7 + r * 13 + 1) land 0xff))) 0x100000001b3L done) idx;
+           (if !c.mainp = MDone then List.length idx else -1), !h in
+         List.iter (fun op ->
+             let n = if String.length op > 1 then int_of_string (String.sub op 1 (String.length op - 1)) else 0 in
+             match op.[0] with
+             | 'T' | 'U' ->
+               step LAddWorker; step LAddWorker; if op.[0] = 'T' then step LRecycle;
+               let cnt, h = run_round n !round in
+               rounds := !rounds @ [(!round, cnt, h)]; incr round
+             | 'M' -> step LAddOutside; incr round
+             | k ->
+               step (if k = 'S' then LStart else LWait);
+               let made = !l.lmade in
+               let rec drop k l = if k = 0 then l else match l with [] -> [] | _ :: r -> drop (k - 1) r in
+               let fresh = drop !reported made in
+               reported := List.length made;
+               Buffer.add_string out (Printf.sprintf " %c:run=%d:made=%s:%s" k (if lrunning !l then 1 else 0)
+                                        (String.concat "." (List.map (fun x -> string_of_int (int_of_nat x)) fresh))
+                                        (String.concat ";" (List.map (fun (r, c, h) -> Printf.sprintf "r%d=%d.%Lx" r c h) !rounds)))) ops;
+         Buffer.contents out end)
   | ["POOLF"; workers; queue; n; fail_at; seed] ->
     (* handlers that throw: the model with the failure oracle; the run ends aborted or finished, never with a dropped request *)
     let w = int_of_string workers and cap = int_of_string queue and n = int_of_string n and fa = int_of_string fail_at in
